@@ -6,6 +6,8 @@ R3  code->spec: seeded histories of New / Reset / Len / transform calls (valid a
     dst nil / fresh / same-as-src) on real FFT, CmplxFFT, DCT, DST, QuarterWaveFFT objects over lengths
     1..512, every transform mirrored on a brand-new object; results are named by hashes of their bit
     patterns and TLC accepts the log iff it is a behaviour of FourierObj (FourierObjTrace.tla).
+R3' code->spec: dsp/transform Hilbert histories in the same trace specification (plus the real-part predicate);
+    dsp/window: weights as an uninterpreted function fixed at first occurrence (WindowTrace.tla).
 R2  spec->code: index helpers (FftIndex.tla) and the defining sums wherever every trigonometric
     factor is rational (ExactDft.tla) - expected values are the integers TLC printed.
 """
@@ -14,7 +16,7 @@ import os
 import shutil
 
 SPECDIR = os.path.join(os.path.dirname(__file__), "..", "..", "specs", "dsp")
-TYPES = ["FFT", "CmplxFFT", "DCT", "DST", "QW"]
+TYPES = ["FFT", "CmplxFFT", "DCT", "DST", "QW", "Hilbert"]
 
 
 def have(spec):
@@ -40,7 +42,45 @@ def histories(ctx, b, bn, hist, steps, maxn=512):
                 shutil.copy(tr, dst)
                 ctx.violation("dsp:history-rejected:%s:%s" % (typ, bn), st.get("detail", "")[:700],
                               {"trace": dst, "type": typ, "build": bn, "spec": "dsp/FourierObjTrace.tla"})
-    return [lambda t=t: one(t) for t in TYPES]
+    return [lambda t=t: one(t) for t in TYPES]   # (width of ctx.parallel bounds the concurrency)
+
+
+WIN_SHARDS = [
+    ("Rectangular,Hann,Tukey", "Rectangular+Hann+Tukey"),
+    ("Sine,Lanczos,Triangular,BartlettHann,Hamming", "Sine..Hamming"),
+    ("Blackman,BlackmanHarris,Nuttall,BlackmanNuttall", "Blackman family"),
+    ("FlatTop,Gaussian", "FlatTop+Gaussian"),
+]
+
+
+def windows(ctx, b, bn, th):
+    """code->spec for dsp/window: weights as an uninterpreted function (WindowTrace.tla).  The trace specification
+    consumes the whole log and reports the set of violated clauses as signatures."""
+    import re
+
+    def one(kinds, label):
+        tr = os.path.join(ctx.work, "wintrace-%s-%s.ndjson" % (label.replace(" ", "_").replace("+", "_"), bn))
+        summ = ctx.record(b, "dsp-window", tr, ["kinds=" + kinds, "nmax=64", "values=" + ("all" if th else "some")],
+                          name="R3 record windows %s n<=64 [%s]" % (label, bn))
+        ok, st = ctx.validate("dsp/WindowTrace.tla", "dsp/WindowTrace.cfg", tr, subst=dict(MULULPS=0),
+                              name="R3 validate windows %s [%s]" % (label, bn))
+        with ctx._lock:
+            ctx.cases += summ.get("cases", 0)
+            ctx.nontrivial += summ.get("nontrivial", 0)
+            if ok:
+                ctx.traces += summ.get("traces", 0)
+                return
+            sigs = sorted(set(re.findall(r'dsp:window\.[A-Za-z0-9_.]*:[a-z0-9-]+', st.get("detail", ""))))
+            keep = os.path.join(ctx.work, "..", "..", "replays", "C17")
+            os.makedirs(keep, exist_ok=True)
+            dst = os.path.abspath(os.path.join(keep, "wintrace-%s-%s-seed%d.ndjson" % (label.replace(" ", "_").replace("+", "_"), bn, ctx.seed)))
+            shutil.copy(tr, dst)
+            for sg in sigs or ["dsp:window:trace-stuck"]:
+                ctx.violation(sg, "window clause violated (clauses and reasons: specs/dsp/WindowTrace.tla); all signatures "
+                              "of this trace: " + ", ".join(sigs),
+                              {"trace": dst, "build": bn, "spec": "dsp/WindowTrace.tla", "cfg": dict(MULULPS=0), "sig": sg})
+            st["signatures"] = sigs
+    return [lambda a=a: one(*a) for a in WIN_SHARDS]
 
 
 ALLK = ["C.coef", "C.seq", "FFT.coef", "FFT.seq", "DCT.t", "DST.t", "QW.cosc", "QW.coss", "QW.sinc", "QW.sins"]
@@ -66,12 +106,14 @@ def exact_stages(ctx, bins, builds, th):
         w = 41 + (ctx.seed * 53) % 440          # a seed-chosen window of lengths gets the other families too
         shards.append(("all kinds n=%d..%d fam 1-6 (seed window)" % (w, w + 23), ALLK, w, w + 23, [1, 2, 3, 4, 5, 6]))
     shards.append(("radix-2/4 n=1..%d" % (4096 if th else 1024), RADK, 1, 4096 if th else 1024, allf))
+    # analytic signal: constant, real part = input (any data), n in {1,2,4} fully
+    shards.append(("Hilbert n=1..512", ["H.as"], 1, 512, [30, 31, 33]))
     # lengths beyond 512 are sampled: seed-chosen n up to 10^4 (quick: 3 lengths up to 4096)
     import random
     rnd = random.Random(ctx.seed * 1009 + 7)
     big = sorted(set(rnd.randint(513, 10000) for _ in range(32))) if th else sorted(set(rnd.randint(513, 4096) for _ in range(3)))
     for n in big:
-        shards.append(("all kinds n=%d fam 0,20 (sampled length)" % n, ALLK, n, n, [0, 20]))
+        shards.append(("all kinds n=%d fam 0,20,30,31 (sampled length)" % n, ALLK + ["H.as"], n, n, [0, 20, 30, 31]))
 
     def one(name, kinds, lo, hi, fams):
         cases = ctx.gen("dsp/ExactDft.tla", "dsp/ExactDft.cfg", name="R1+R2 gen exact sums " + name, timeout=1700,
@@ -107,6 +149,11 @@ def run(ctx):
         thunks += histories(ctx, bins[bn], bn, 250 if th else 12, 50)
     thunks += histories(ctx, bins["default"], "default", 60 if th else 3, 50, maxn=10000)
 
+    # ---- R3: window functions ------------------------------------------------
+    thunks += windows(ctx, bins["default"], "default", th)
+    if th:
+        thunks += windows(ctx, bins["bounds"], "bounds", th)
+
     # ---- R1+R2: index helpers ----------------------------------------------
     def index():
         nhi = 1100 if th else 600
@@ -140,7 +187,7 @@ def run(ctx):
 def replay(ctx, path):
     d = json.load(open(path))["data"]
     if "trace" in d:
-        ok, st = ctx.validate(d["spec"], d["spec"].replace(".tla", ".cfg"), d["trace"])
+        ok, st = ctx.validate(d["spec"], d["spec"].replace(".tla", ".cfg"), d["trace"], subst=d.get("cfg", {}))
         print("trace accepted" if ok else "trace rejected: " + st.get("detail", "")[:800])
         if not ok:
             print("VIOLATION property=C17 replay=%s" % path)
